@@ -19,6 +19,27 @@ HOOKS = {
 }
 
 PROPS = {
+    "C01": {
+        "bin": "c01",
+        "explanation": "Bounded symbolic checking of the real Linear strategy behind every 1-D entry point, instantiated at the term-recording scalar in mode R "
+                       "with a FULLY SYMBOLIC strictly increasing axis (and the default index axis): for every feasible path and every bracket k, z3 proves for all "
+                       "axis values, data values and in-range queries that q in [x_k, x_k+1] implies (out - y_k)(x_k+1 - x_k) = (y_k+1 - y_k)(q - x_k), plus the knot "
+                       "and bracket-bounds corollaries; no in-range query may end in an error or panic path.",
+        "trusted_base": R_TRUST,
+        "technique": "symbolic execution of the real generic code at a term-recording scalar + z3 (QF_NRA), symbolic axis, obligations per bracket with the bracket as premise",
+        "level_text": "Bounded symbolic model checking over ALL strictly increasing real axes, data and in-range queries for n <= 4 (quick) / 6 (thorough), trailing shapes (), (2), (2,2), three entry points. The oracle is cross-multiplied and does not copy the implementation's formula. Right level: wrong-neighbour / wrong-denominator / lane mix-up defects are algebraic and the solver covers every spacing at once, which the unit-spaced tests cannot.",
+        "level_note": "Trusted: engine S, z3. Real-number semantics (the 'few ulps' clause is not decided). Bracket selection on IEEE inputs is C11 (Kani) and C20 (mode O). n bounded.",
+    },
+    "C04": {
+        "bin": "c04",
+        "explanation": "Bounded symbolic checking of the real Bilinear strategy (mode R): concrete rational x/y axes from independent families (or default index axes), "
+                       "symbolic grid data and query; per feasible path, lane and cell z3 proves the cross-multiplied bilinear blend equation, node reproduction, "
+                       "reduction to 1-D linear interpolation on grid lines, and equality with the interpolator built from transposed data / swapped axes / swapped query.",
+        "trusted_base": R_TRUST,
+        "technique": "symbolic execution of the real generic code at a term-recording scalar + z3 (QF_NRA) over all grid data and queries; concrete rational axes; obligations per cell with the cell as premise",
+        "level_text": "Bounded symbolic model checking for all grid data and in-range queries on grids 2x2..3x3 (thorough ..4x3, 3x5), non-square grids and distinct symbols make x/y and neighbour swaps visible; transposition symmetry checked inside the same execution.",
+        "level_note": "Trusted: engine S, z3. Real-number semantics. Axes concrete (symbolic axes stall the solver, measured); grid sizes bounded. Cell selection on IEEE inputs: C11; dependence on four corners only: C20.",
+    },
     "C02": {
         "bin": "c02",
         "explanation": "Bounded symbolic checking of the real CubicSpline builder and evaluator instantiated at the term-recording scalar (mode R, exact "
